@@ -147,10 +147,17 @@ impl HotTier {
             inserted_at: Instant::now(),
         };
 
-        self.documents.write().insert(doc_id, doc);
+        // Lock order is documents -> stats everywhere (delete, get, drain). Read the size under
+        // the documents guard and release it before taking the stats lock; taking documents while
+        // holding stats can deadlock against a concurrent delete/get.
+        let current_size = {
+            let mut docs = self.documents.write();
+            docs.insert(doc_id, doc);
+            docs.len()
+        };
 
         let mut stats = self.stats.write();
-        stats.current_size = self.documents.read().len();
+        stats.current_size = current_size;
         stats.total_inserts += 1;
     }
 
